@@ -4,6 +4,7 @@ import hashlib
 import os
 
 REPO = os.environ.get("VERIF_REPO", "/repo")
+VERIF_ROOT = os.path.dirname(os.path.dirname(os.path.abspath(__file__)))
 
 
 class FuncSrc:
@@ -37,7 +38,8 @@ _cache = {}
 
 
 def load_module(relpath):
-    path = os.path.join(REPO, relpath)
+    # "@verif/<file>": a ghost client function that lives in a sidecar (composition lemma over contracts of real functions)
+    path = os.path.join(VERIF_ROOT, relpath[len("@verif/"):]) if relpath.startswith("@verif/") else os.path.join(REPO, relpath)
     key = path
     if key not in _cache:
         with open(path, encoding="utf-8") as f:
